@@ -90,7 +90,7 @@ CHECKS = {
  "C03": ("exploration",
          "reference-model monitor (queue interpreter + grammar) over exhaustive small universe with queue probes + seeded random programs",
          "VerifyArtifacts and UnpackRule are executed next to an independently written reference interpreter/grammar on every rule list of length<=2 over a 50-rule vocabulary x every link state of a 4-path/2-hash universe (with a DISALLOW probe per path so that wrong consumption becomes visible), on random longer programs and on the token-list neighbourhood of every rule form. Held = verdicts and parse results agree on everything listed.",
-         "Trusted: reference interpreter (harness/ref/rules.go, ref/glob.go) written from the specification text; only clean paths/patterns/prefixes are judged.",
+         "Trusted: reference interpreter (harness/ref/rules.go, ref/glob.go) written from the specification text; only clean patterns and prefixes are judged; artifact paths are clean or (item-list sub-check) spelled in forms that map one-to-one onto clean names (./a, d//a, d/./a).",
          "C03"),
  "C11": ("exploration",
          "reference-model monitor (independent OLPC canonicaliser over an independently rendered tree) + metamorphic re-serialisation + collision set + strict JSON parse of DSSE payloads",
